@@ -11,6 +11,8 @@ Z == RZero
 D(a, b, c, d, e, f, g) == <<R(a), R(b), R(c), R(d), R(e), R(f), R(g)>>
 DimList == <<D(1,0,0,0,0,0,0), D(0,0,1,0,0,0,0), D(2,1,-2,0,0,-1,0),
              D(2,1,-2,0,-1,-1,0), <<<<1,2>>, Z, Z, Z, Z, Z, Z>>,
+             \* tenths: 3/10 - 1/10 - 1/5 is exactly zero here and a rounding residue in binary floating point
+             <<<<3,10>>, Z, Z, Z, Z, Z, Z>>, <<<<1,10>>, Z, Z, Z, Z, Z, Z>>, <<<<1,5>>, Z, Z, Z, Z, Z, Z>>,
              D(0,1,0,0,0,0,0), D(0,0,0,0,1,0,0), D(1,1,-2,0,0,0,0),
              D(0,0,0,1,0,0,0), D(0,0,0,0,0,1,0), D(0,0,0,0,0,0,1),
              D(2,1,-2,0,0,0,0)>>
